@@ -288,7 +288,7 @@ def run(ctx):
         else:
             value = line
         rrkwargs = {}
-        """, construct="_parse_rfc_rrule: property name", outcome=lambda p_: summ.result_text(p_) if p_.result[0] != "fall" else "value = %s" % src(p_.env.get("value") or p_.env.get("rule") or ast.Name(id="?", ctx=ast.Load())))
+        """, construct="_parse_rfc_rrule: property name", where=prr, outcome=lambda p_: summ.result_text(p_) if p_.result[0] != "fall" else "value = %s" % src(p_.env.get("value") or p_.env.get("rule") or ast.Name(id="?", ctx=ast.Load())))
     fast = [n for n in pcfg.live_nodes() if n.kind == "stmt" and isinstance(n.ast, ast.Return) and "self._parse_rfc_rrule(" in src(n.ast)]
     guarded = [n for n in fast if ("forceset", False) in pfacts.at(n) and any(
         tv and "find(':')" in t.replace('"', "'") and "startswith('RRULE:')" in t.replace('"', "'") for t, tv in pfacts.at(n))]
